@@ -143,6 +143,7 @@ type State struct {
 }
 
 type Frame struct {
+	id     int // unique per pushed frame (clones keep it)
 	fn     *ssa.Function
 	env    map[ssa.Value]Value
 	block  *ssa.BasicBlock
